@@ -272,6 +272,8 @@ func TestHarness(t *testing.T) {
 					emit(guard("linkend", "json-raw", seed, func() SysRecord { return FamPanicTwice(seed) }))
 				} else if k < 6 {
 					emit(guard("linkend", "json-raw", seed, func() SysRecord { return FamHealthyStaysUp(seed) }))
+				} else if k < 8 {
+					emit(guard("linkend", "json-raw", seed, func() SysRecord { return FamEndWhileClosureRuns(seed, k-6) }))
 				}
 			}
 			if has("relay") {
@@ -285,6 +287,9 @@ func TestHarness(t *testing.T) {
 				default:
 					emit(guard("relay", "cborBytesCodec", seed, func() SysRecord { return FamRelay(cborBytesCodec(), seed) }))
 				}
+			}
+			if has("relay") && cfg == 0 {
+				emit(guard("relay", "json-raw", seed, func() SysRecord { return FamRelayClosure(seed) }))
 			}
 			if has("nestedlink") {
 				switch cfg {
@@ -307,8 +312,17 @@ func TestHarness(t *testing.T) {
 			if has("sharedhooks") {
 				emit(guard("sharedhooks", "json-raw", seed, func() SysRecord { return FamSharedHooks(seed) }))
 			}
+			if has("cancel") && i == job.Params["offset"] {
+				emit(guard("cancel", "json-raw/stream", seed, func() SysRecord { return FamStuckStreamWrite(seed) }))
+			}
+			if has("closurestress") && i == job.Params["offset"] {
+				emit(guard("closurestress", "json-raw", seed, func() SysRecord { return ClosureStress(seed, job.Params["workers"], job.Params["perworker"]) }))
+			}
 			if has("earlycancel") {
 				emit(guard("earlycancel", "json-raw", seed, func() SysRecord { return FamEarlyCancel(seed, i) }))
+				if i-job.Params["offset"] < 2 {
+					emit(guard("earlycancel", "json-raw", seed, func() SysRecord { return FamEnumPanic(seed) }))
+				}
 			}
 			if has("enumrace") {
 				emit(guard("enumrace", "json-raw", seed, func() SysRecord { return FamEnumRace(seed) }))
@@ -318,6 +332,10 @@ func TestHarness(t *testing.T) {
 			}
 			if has("framing") {
 				emit(guard("framing", "json-raw", seed, func() SysRecord { return FamFraming(seed, i%3) }))
+				if i%3 == 0 {
+					emit(guard("framing", "json-raw", seed, func() SysRecord { return FamEagerPeer(seed, false) }))
+					emit(guard("framing", "json-raw", seed, func() SysRecord { return FamEagerPeer(seed, true) }))
+				}
 			}
 			for _, f := range []string{"values", "errors", "closures", "nest", "inforremotes", "cancel", "ctxend", "closureend"} {
 				if !has(f) {
@@ -378,6 +396,7 @@ func TestHarness(t *testing.T) {
 					emit(runFam(f, jsonBytesCodec(), st.stream, st.chunk, seed, 10))
 					emit(runFam(f, cborRawCodec(), st.stream, st.chunk, seed, 10))
 					emit(runFam(f, cborBytesCodec(), st.stream, st.chunk, seed, 10))
+					emit(runFam(f, jsonPtrRawCodec(), st.stream, st.chunk, seed, 10))
 				}
 			}
 		}
